@@ -167,10 +167,10 @@ func runC17(s *sim) {
 	served := map[string]map[peer.ID]int{} // id -> peer -> times served
 	// IDONTWANT model per peer: id -> remaining ttl
 	unwanted := map[peer.ID]map[string]int{}
-	ctlRPCs := map[peer.ID]int{}    // RPCs with a control part received from the peer in this heartbeat interval
-	idwMsgs := map[peer.ID]int{}    // IDONTWANT RPCs accepted this heartbeat interval
-	ihaveMsgs := map[peer.ID]int{}  // IHAVE RPCs this interval
-	asked := map[peer.ID]int{}      // ids asked from peer this interval
+	ctlRPCs := map[peer.ID]int{}   // RPCs with a control part received from the peer in this heartbeat interval
+	idwMsgs := map[peer.ID]int{}   // IDONTWANT RPCs accepted this heartbeat interval
+	ihaveMsgs := map[peer.ID]int{} // IHAVE RPCs this interval
+	asked := map[peer.ID]int{}     // ids asked from peer this interval
 	lastTick := uint64(0)
 	// promises: IWANTs the node sent
 	type promise struct {
